@@ -680,6 +680,19 @@ class Interp:
                 base[self.ev(t.slice)] = val
             else:
                 raise Unmodelled(f'subscript store on {base!r}')
+        elif isinstance(t, ast.Subscript):
+            base = self.ev(t.value)
+            sl_ = slice(*[self.ev(x_) if x_ is not None else None for x_ in (t.slice.lower, t.slice.upper, t.slice.step)])
+            if not all(x_ is None or (isinstance(x_, int) and not isinstance(x_, bool)) for x_ in (sl_.start, sl_.stop, sl_.step)):
+                raise Unmodelled('slice store with symbolic bounds')
+            seq_ = self._nt_seq(val)
+            if isinstance(base, list) and isinstance(sl_, slice) and isinstance(seq_, (list, tuple, str)):
+                try:
+                    base[sl_] = seq_
+                except ValueError:
+                    raise ExcRaised(Ref('builtin:ValueError'))       # extended slice of another size
+            else:
+                raise Unmodelled(f'slice store on {base!r}')
         else:
             raise Unmodelled(f'store target {type(t).__name__}')
 
